@@ -70,13 +70,22 @@ def planted(rng):
         src = '<div>\n<p tal:condition="f1">${%s}</p>\n  <i tal:condition="f2" tal:content="%s">x</i></div>' % (bad, bad)
         vars_ = [['f1', f1], ['f2', f2]]
         reach = f1 or f2
-        off = src.index(bad) if f1 else src.rindex(bad)
-        return {'src': src, 'vars': vars_, 'objs': [], 'pyoracle': [[bad, msg(bad)]]}, bad, (src.index(bad), off), reach, kind
+        src, eol = line_endings(rng, src)
+        norm = src.replace(eol, '\n')
+        off = norm.index(bad) if f1 else norm.rindex(bad)
+        return {'src': src, 'vars': vars_, 'objs': [], 'pyoracle': [[bad, msg(bad)]]}, bad, (norm.index(bad), off), reach, kind
     else:
         src = 'é\n<div tal:condition="flag">\n  <p title="${%s}">x</p></div>' % bad
         vars_ = [['flag', reach]]
-    off = src.index(bad)
+    src, eol = line_endings(rng, rng.choice(['', 'first line\n\n  second\n']) + src)
+    off = src.replace(eol, '\n').index(bad)
     return {'src': src, 'vars': vars_, 'objs': [], 'pyoracle': [[bad, msg(bad)]]}, bad, off, reach, kind
+
+
+def line_endings(rng, src):
+    """HTML-mode templates are normalised to LF before they are tokenised: offsets, lines and columns refer to the normalised text"""
+    eol = rng.choice(['\n', '\n', '\r\n', '\r'])
+    return src.replace('\n', eol), eol
 
 
 def correspondence(ctx):
@@ -141,11 +150,18 @@ def oracle(ctx):
             ctx.violation('non-strict: the ExpressionError is raised iff rendering reaches the expression', inp,
                           expected='raised' if reach else 'not raised', actual=rl)
             continue
+        norm = case['src'].replace('\r\n', '\n').replace('\r', '\n')
+        want_lc = (1 + norm[:strict_off].count('\n'), strict_off - (norm[:strict_off].rfind('\n') + 1))
+        if (rs.get('line'), rs.get('col')) != want_lc:
+            ctx.violation('strict: line/column of the ExpressionError do not belong to its offset', inp, expected=want_lc,
+                          actual=(rs.get('line'), rs.get('col')))
+            continue
         if raised:
             loc = lax_location(case)
-            if loc != (bad, off):
+            lc = (1 + norm[:off].count('\n'), off - (norm[:off].rfind('\n') + 1))
+            if loc != (bad, off, lc):
                 ctx.violation('non-strict: the ExpressionError raised at render time does not carry the same token/location as in strict mode',
-                              inp, expected=(bad, off), actual=loc)
+                              inp, expected=(bad, off, lc), actual=loc)
     ctx.cov['planted_histogram'] = {'%s reached=%s' % k: v for k, v in hist.items()}
     ctx.counters['nontrivial'] = nt
     ctx.sample({'template': ps[0][0]['src'], 'vars': ps[0][0]['vars'], 'invalid': ps[0][1], 'reached': ps[0][3]})
@@ -164,7 +180,7 @@ def lax_location(case):
         PageTemplate(case['src'], strict=False)(**kw)
     except Exception as e:
         tok = getattr(e, 'token', None)
-        return (str(tok), getattr(tok, 'pos', None))
+        return (str(tok), getattr(tok, 'pos', None), tuple(tok.location) if hasattr(tok, 'location') else None)
     return None
 
 
